@@ -219,6 +219,23 @@ def trace_validate(module, cfg, trace, workdir, env_extra=None, timeout=1200, na
     return ok, distinct, rejected
 
 
+def apalache(module, workdir, name, *args, timeout=900):
+    """runs apalache-mc check on spec/<module>.tla; returns True when the outcome is NoError"""
+    out = os.path.join(workdir, name + ".apalache.out")
+    cmd = ["timeout", str(timeout), "apalache-mc", "check", "--out-dir=" + os.path.join(workdir, name + ".apalache")] + list(args) + [module + ".tla"]
+    with open(out, "w") as f:
+        p = subprocess.run(cmd, cwd=SPEC, stdout=f, stderr=subprocess.STDOUT)
+    text = open(out, errors="replace").read()
+    shutil.rmtree(os.path.join(workdir, name + ".apalache"), ignore_errors=True)
+    if p.returncode == 124:
+        raise ToolError("apalache timed out on %s %s" % (module, " ".join(args)))
+    if "The outcome is: NoError" in text:
+        return True
+    if "The outcome is: Error" in text:
+        return False
+    raise ToolError("apalache gave no verdict on %s %s:\n%s" % (module, " ".join(args), text[-2000:]))
+
+
 def vh(*args, timeout=3600, check=True, env_extra=None):
     env = dict(os.environ)
     if env_extra:
